@@ -213,6 +213,15 @@ static jv *fd_token(struct sk_proc *p, int fd, int child_view)
 }
 
 static int cmpstr(const void *a, const void *b) { return strcmp((*(jv *const *) a)->s, (*(jv *const *) b)->s); }
+static int tokord(const char *s) { const char *h = strchr(s, '#'); return h ? atoi(h + 1) : 1000; }
+/* parent-side tokens are listed by the ordinal of their object (the order in which the child's descriptors
+   0,1,2 and then its other descriptors mention it), not by descriptor number, which is an implementation choice */
+static int cmpord(const void *a, const void *b)
+{
+  const char *x = (*(jv *const *) a)->s, *y = (*(jv *const *) b)->s;
+  int d = tokord(x) - tokord(y);
+  return d ? d : strcmp(x, y);
+}
 
 static jv *strlist_at(int off, int n)
 {
@@ -290,7 +299,7 @@ static jv *obs_key(const char *key, jv *call, long r, jv *extra)
     for (int i = 0; i < 3; i++) j_push(cw, fd_token(c, i, 1));
     for (int i = 3; i < SK_MAXFD; i++) if (c->fd[i].ofd >= 0) j_push(cx, fd_token(c, i, 1));
     for (int i = 0; i < SK_MAXFD; i++) if (K->proc[0].fd[i].ofd >= 0 && K->proc[0].fd[i].owner == 1) j_push(pp, fd_token(&K->proc[0], i, 0));
-    qsort(pp->a, (size_t) pp->n, sizeof(jv *), cmpstr);
+    qsort(pp->a, (size_t) pp->n, sizeof(jv *), cmpord);
     return key[1] == 'w' ? cw : key[1] == 'x' ? cx : pp;
   }
   if (!strcmp(key, "cnb")) return j_mkint(c->exec_fds_nonblock);
@@ -340,7 +349,7 @@ static reproc_redirect mk_redirect(jv *r)
     if (r->n > 0) d.type = (REPROC_REDIRECT) r->a[0]->i;
     if (r->n > 1 && r->a[1]->t == J_INT) d.handle = (int) r->a[1]->i;
     if (r->n > 2 && r->a[2]->t == J_INT && r->a[2]->i > 0) d.file = sk_file_for_fd((int) r->a[2]->i);
-    if (r->n > 3 && r->a[3]->t == J_STR) d.path = keep(r->a[3]->s);
+    if (r->n > 3 && r->a[3]->t == J_STR && r->a[3]->s[0]) d.path = keep(r->a[3]->s);
   }
   return d;
 }
@@ -379,7 +388,7 @@ static reproc_options mk_options(jv *o, int h, uint8_t **inbuf)
   op.redirect.discard = j_int(o, "discard", 0) != 0;
   long f = j_int(o, "file", 0);
   op.redirect.file = f > 0 ? sk_file_for_fd((int) f) : NULL;
-  op.redirect.path = j_get(o, "path") && j_get(o, "path")->t == J_STR ? keep(j_get(o, "path")->s) : NULL;
+  op.redirect.path = j_get(o, "path") && j_get(o, "path")->t == J_STR && j_get(o, "path")->s[0] ? keep(j_get(o, "path")->s) : NULL;
   op.stop = mk_stop(j_get(o, "stop"));
   op.deadline = (int) j_int(o, "dl", 0);
   long in = j_int(o, "input", -1);
@@ -505,7 +514,7 @@ static long do_call(jv *c, jv **extra)
     uint8_t *inbuf;
     jv *o = j_get(c, "o");
     reproc_options op = mk_options(o, h, &inbuf);
-    const char **argv = strarr(j_get(c, "argv"));
+    const char **argv = j_int(c, "noargv", 0) ? NULL : strarr(j_get(c, "argv"));
     /* faults */
     jv *fl = j_get(c, "faults");
     K->nfault = 0; K->callno[0] = K->callno[1] = 0; K->fault_hits = 0;
